@@ -540,7 +540,11 @@ def udp_done(chan, data, method, sock, dstip):
     (src, srcport, data) = data.split(b",", 2)
     srcip = (src, int(srcport))
     debug3('doing send from %r to %r' % (srcip, dstip,))
-    method.send_udp(sock, srcip, dstip, data)
+    try:
+        method.send_udp(sock, srcip, dstip, data)
+    except socket.error:
+        _, e = sys.exc_info()[:2]
+        log('UDP send to %r: %s' % (dstip, e))
 
 
 def onaccept_udp(listener, method, mux, handlers):
@@ -572,7 +576,11 @@ def dns_done(chan, data, method, sock, srcip, dstip, mux):
     debug3('dns_done: channel=%d src=%r dst=%r' % (chan, srcip, dstip))
     del mux.channels[chan]
     del dnsreqs[chan]
-    method.send_udp(sock, srcip, dstip, data)
+    try:
+        method.send_udp(sock, srcip, dstip, data)
+    except socket.error:
+        _, e = sys.exc_info()[:2]
+        log('DNS reply to %r: %s' % (dstip, e))
 
 
 def ondns(listener, method, mux, handlers):
